@@ -9,7 +9,8 @@ LEVEL = "exploration"
 RULE = ("seeded random continua up to 4x5 units (incl. identical units across annotators, unlabelled units) x candidate "
         "alignments: random valid partitions and near-valid mutants (unit dropped, whole unitary alignment dropped, unit "
         "duplicated into another unitary alignment, unitary alignment duplicated, unit moved under another annotator, "
-        "foreign unit added once, all-empty unitary alignment added, slots permuted, unitary alignments permuted, up to "
+        "foreign unit added once, all-empty unitary alignment added, one annotator named in two slots of a unitary alignment, "
+        "the same unit twice in one unitary alignment, slots permuted, unitary alignments permuted, up to "
         "3 mutations combined); thorough tier also enumerates ALL partitions of tiny continua x every single mutation. "
         "Each candidate is judged by Alignment.check(), SoftAlignment.check(), both constructors with "
         "check_validity=True, check(continuum) with the continuum passed explicitly, before and after shuffling; the "
@@ -37,7 +38,7 @@ def counts_of(cspec, aspec):
     for t in truth:
         cnt[t] = 0
     for tup in aspec:
-        for a, v in tup.items():
+        for a, v in _slots(tup):
             if v is None:
                 continue
             u = tuple(v) if isinstance(v, (list, tuple)) else tuple(cspec["ann"][a][v])
@@ -46,11 +47,15 @@ def counts_of(cspec, aspec):
     return cnt
 
 
+def _slots(tup):
+    return [tuple(x) for x in tup] if isinstance(tup, list) else list(tup.items())
+
+
 def foreign_duplicates(cspec, aspec):
     truth = {(a, tuple(u)) for a, us in cspec["ann"].items() for u in us}
     seen = {}
     for tup in aspec:
-        for a, v in tup.items():
+        for a, v in _slots(tup):
             if v is None:
                 continue
             u = tuple(v) if isinstance(v, (list, tuple)) else tuple(cspec["ann"][a][v])
@@ -60,13 +65,13 @@ def foreign_duplicates(cspec, aspec):
 
 
 MUTATIONS = ["drop-unit", "drop-unitary", "dup-unit", "dup-unitary", "move-annotator", "foreign-once", "all-empty",
-             "none"]
+             "none", "same-annotator-twice", "same-unit-twice-in-one-tuple"]
 
 
 def mutate(rng, cspec, aspec, kind):
     a2 = copy.deepcopy(aspec)
     names = list(cspec["ann"].keys())
-    real = [(k, a) for k, tup in enumerate(a2) for a, v in tup.items() if v is not None]
+    real = [(k, a) for k, tup in enumerate(a2) if isinstance(tup, dict) for a, v in tup.items() if v is not None]
     if kind == "none" or not a2:
         return a2
     if kind == "drop-unit" and real:
@@ -78,7 +83,7 @@ def mutate(rng, cspec, aspec, kind):
         del a2[rng.randrange(len(a2))]
     elif kind == "dup-unit" and real:
         k, a = rng.choice(real)
-        targets = [j for j, tup in enumerate(a2) if j != k and tup[a] is None]
+        targets = [j for j, tup in enumerate(a2) if j != k and isinstance(tup, dict) and tup[a] is None]
         if targets:
             a2[rng.choice(targets)][a] = a2[k][a]
         else:
@@ -102,6 +107,31 @@ def mutate(rng, cspec, aspec, kind):
         a2.append(new)
     elif kind == "all-empty":
         a2.append({n: None for n in names})
+    elif kind in ("same-annotator-twice", "same-unit-twice-in-one-tuple") and len(a2) >= 1:
+        # a unitary alignment that names one annotator in two slots (list form): either two of its units (every unit still
+        # present exactly once: a valid partition by count) or the same unit twice (a duplicate)
+        dict_idx = [k for k, tup in enumerate(a2) if isinstance(tup, dict)]
+        for k in dict_idx:
+            tup = a2[k]
+            donors = [a for a, v in tup.items() if v is not None]
+            empties = [a for a, v in tup.items() if v is None]
+            if donors and empties:
+                a = rng.choice(donors)
+                e = rng.choice(empties)
+                if kind == "same-unit-twice-in-one-tuple":
+                    extra = tup[a]
+                else:
+                    # take another unit of `a` away from another unitary alignment
+                    others = [(j, t2) for j, t2 in enumerate(a2) if j != k and isinstance(t2, dict) and t2.get(a) is not None]
+                    if not others:
+                        continue
+                    j, t2 = rng.choice(others)
+                    extra = t2[a]
+                    t2[a] = None
+                slots = [[x, v] for x, v in tup.items() if x != e] + [[a, extra]]
+                a2[k] = slots
+                break
+        a2 = [t for t in a2 if not (isinstance(t, dict) and all(v is None for v in t.values()) and len(a2) > 1)] or a2
     return a2
 
 
@@ -194,6 +224,23 @@ def run(ctx):
         case = {"continuum": cspec, "alignment": asp, "mutations": muts}
         ctx.begin_case(case, nontrivial=cases.spec_num_units(cspec) >= 2)
         ctx.observe("mutations", "+".join(muts) or "valid")
+        check_case(ctx, case)
+    # units whose start and end only differ beyond the 6th significant digit (sample indices hours into a file, ms stamps
+    # past 1000 s): two distinct units of one annotator with the same label must stay two units
+    for _ in range(ctx.scale(20, 300)):
+        n = rng.randint(2, 3)
+        base = rng.choice([476280000.0, 3600.120, 123456700.0, 99999.95])
+        step = {476280000.0: 128.0, 3600.120: 0.001, 123456700.0: 1.0, 99999.95: 0.01}[base]
+        cspec = {"ann": {}, "family": "close-large-coordinates"}
+        for a in cases.ANNOTATOR_NAMES[:n]:
+            k = rng.randint(1, 3)
+            cspec["ann"][a] = [[base + i * step, base + i * step + 50 * step + i * step, "lab"] for i in range(k)]
+        base_al = cases.random_partition_alignment(rng, cspec, p_join=0.5)
+        muts = [rng.choice(["none", "drop-unit", "dup-unit", "none"])]
+        asp = mutate(rng, cspec, base_al, muts[0])
+        case = {"continuum": cspec, "alignment": asp, "mutations": muts}
+        ctx.begin_case(case)
+        ctx.observe("mutations", "close-large-coordinates+" + muts[0])
         check_case(ctx, case)
     # continua in which annotators are declared but nobody has a unit (a falsy Continuum): the only candidates are
     # all-empty unitary alignments, which must be accepted - also when the continuum is passed to check() explicitly
